@@ -413,6 +413,56 @@ fn const_json<'tcx>(tcx: TyCtxt<'tcx>, env: TypingEnv<'tcx>, c: &Const<'tcx>) ->
             }
         }
     }
+    // `&Enum` / `&int` constants (typically promoted `&Unit::Week` operands of comparisons): the pointee's value
+    if let ty::Ref(_, inner, _) = t.kind() {
+        let simple = match inner.kind() {
+            ty::Int(_) | ty::Uint(_) | ty::Bool => true,
+            ty::Adt(adt, _) => adt.is_enum() && adt.variants().iter().all(|v| v.fields.is_empty()),
+            _ => false,
+        };
+        if simple {
+            if let Ok(ConstValue::Scalar(rustc_middle::mir::interpret::Scalar::Ptr(ptr, _))) =
+                c.eval(tcx, env, rustc_span::DUMMY_SP)
+            {
+                let (prov, offset) = ptr.prov_and_relative_offset();
+                if let Some(rustc_middle::mir::interpret::GlobalAlloc::Memory(alloc)) =
+                    tcx.try_get_global_alloc(prov.alloc_id())
+                {
+                    if let Ok(layout) = tcx.layout_of(env.as_query_input(*inner)) {
+                        let size = layout.size.bytes() as usize;
+                        let start = offset.bytes() as usize;
+                        let a = alloc.inner();
+                        if size > 0 && size <= 16 && start + size <= a.len() {
+                            let bytes = a.inspect_with_uninit_and_ptr_outside_interpreter(start..start + size);
+                            let mut v: u128 = 0;
+                            for (i, b) in bytes.iter().enumerate() {
+                                v |= (*b as u128) << (8 * i);
+                            }
+                            match inner.kind() {
+                                ty::Adt(adt, _) => {
+                                    for (vi, d) in adt.discriminants(tcx) {
+                                        let mask = if size >= 16 { u128::MAX } else { (1u128 << (8 * size)) - 1 };
+                                        if (d.val & mask) == v {
+                                            j.set("pointee_variant", J::str(adt.variant(vi).name.as_str()));
+                                        }
+                                    }
+                                }
+                                ty::Int(_) => {
+                                    let shift = 128 - 8 * size as u32;
+                                    j.set("pointee_v", J::int(((v << shift) as i128) >> shift));
+                                }
+                                _ => {
+                                    if v <= i128::MAX as u128 {
+                                        j.set("pointee_v", J::int(v as i128));
+                                    }
+                                }
+                            }
+                        }
+                    }
+                }
+            }
+        }
+    }
     let mut s = String::new();
     let _ = write!(s, "{}", c);
     if s.len() > 300 {
